@@ -52,7 +52,7 @@ func (f *nodeFixture) do(req *http.Request) (httpResult, error) {
 	}
 	if local != "" {
 		// the panic report travels through a pipe: give it a moment when the connection was aborted
-		deadline := time.Now().Add(3 * time.Second)
+		deadline := time.Now().Add(10 * time.Second)
 		for {
 			if report := f.log.takeFor(local); report != "" {
 				return res, httpPanic{report: report}
